@@ -473,6 +473,11 @@ func (e *Executor) LoadDependencyOutputs(
 			return nil
 		}
 
+		// A dependency that was executed (or loaded) earlier in this build is up to date whatever its
+		// tags say: re-running a no-cache dependency for every dependant would execute it several times
+		// per build (and once per path on diamond-shaped graphs of no-cache targets).
+		alreadyAvailable := e.registry.OutputsAvailable(localDep)
+
 		targetResult, err := e.targetCache.Load(ctx, localDep.ChangeHash)
 
 		// If we cannot even get the target result the dependency has to be re-run
@@ -487,7 +492,7 @@ func (e *Executor) LoadDependencyOutputs(
 			loadErr = e.registry.LoadOutputs(ctx, localDep, targetResult, progress)
 		}
 
-		if loadErr != nil || localDep.SkipsCache() {
+		if loadErr != nil || (localDep.SkipsCache() && !alreadyAvailable) {
 			logger.Debugf(
 				"%s: failed to load output for dependency %s (re-rerunning): err=%v no-cache=%t",
 				target.Label,
